@@ -48,6 +48,10 @@ SigOk(r) ==
           /\ (IsRec(i) /\ IsRec(j)) => c[3] = (IF ObsPos(r, <<r.sample[i][1], r.sample[i][2]>>) < ObsPos(r, <<r.sample[j][1], r.sample[j][2]>>) THEN -1
                                                 ELSE IF ObsPos(r, <<r.sample[i][1], r.sample[i][2]>>) > ObsPos(r, <<r.sample[j][1], r.sample[j][2]>>) THEN 1 ELSE 0)
           /\ (IsRec(i) /\ ~IsRec(j)) => c[3] = -1                         \* every unrecognised after every recognised
+          \* the comparison operators (partial_cmp) tell the same story as cmp: always for two recognised descriptors,
+          \* and whenever they give an answer at all (the code answers None when an unrecognised descriptor is involved)
+          /\ (IsRec(i) /\ IsRec(j)) => c[4] = c[3]
+          /\ c[4] # 2 => c[4] = c[3]
     /\ \A i, j, k \in 1..n : (C(i, j)[3] = -1 /\ C(j, k)[3] = -1) => C(i, k)[3] = -1    \* transitive
 
 TraceSig == IsEvent("SigTable") /\ SigOk(Rec[l]) = TRUE
